@@ -257,6 +257,7 @@ func c07Case(t *core.T, long bool) {
 	if t.R.Chance(25) {
 		x := usedIdx[len(usedIdx)-1] + 1 + uint32(t.R.Intn(3))
 		js, kerr := c07KeystoreOf(t, mnemonic, pass, x, G)
+		w.BindPoints() // the other instance is stopped: hook points go to the restoring instance again
 		if kerr != nil {
 			wd.Logf("(keystore file not produced: %v; mnemonic route)", kerr)
 			t.Count("keystore_file_not_produced", 1)
